@@ -183,6 +183,57 @@ def impl_doctrans(case):
     return {"applications": out}
 
 
+def deep_module(depth):
+    """`depth` nested documented functions (each level: one parameter, ReST docstring with a type)"""
+    lines = []
+    for d in range(depth):
+        ind = "    " * d
+        lines += ['%sdef f%d(a%d):' % (ind, d, d), '%s    """' % ind, '%s    Level %d.' % (ind, d), "", '%s    :param a%d: the value' % (ind, d), '%s    :type a%d: ```int```' % (ind, d), '%s    """' % ind]
+    lines.append("    " * depth + "return a%d" % (depth - 1))
+    for d in range(depth - 2, -1, -1):
+        lines.append("    " * (d + 1) + "return f%d" % (d + 1))
+    return "\n".join(lines) + "\n"
+
+
+def impl_doctrans_deep(case):
+    """doctrans applied three times to a deeply nested module: the number of function transformations must stay proportional to the
+    number of function definitions (counted by wrapping DocTrans._handle_function in this child process)"""
+    import os
+    import tempfile
+
+    import cdd.class_.parse  # noqa: F401
+    import cdd.compound.doctrans_utils as du
+    from cdd.compound.doctrans import doctrans
+
+    depth, style, ta = case
+    calls = [0]
+    orig = du.DocTrans._handle_function
+
+    def counted(self, node, original_doc_str):
+        calls[0] += 1
+        return orig(self, node, original_doc_str)
+
+    du.DocTrans._handle_function = counted
+    fd, path = tempfile.mkstemp(suffix=".py", prefix="c11d_")
+    os.close(fd)
+    out = []
+    try:
+        with open(path, "wt") as f:
+            f.write(deep_module(depth))
+        for k in range(3):
+            calls[0] = 0
+            try:
+                doctrans(filename=path, docstring_format=style, type_annotations=ta, no_word_wrap=None)
+                out.append({"calls": calls[0], "size": os.path.getsize(path)})
+            except Exception as e:  # noqa
+                out.append({"raises": core.exc_name(e), "calls": calls[0]})
+                break
+    finally:
+        du.DocTrans._handle_function = orig
+        os.unlink(path)
+    return {"applications": out}
+
+
 def repo_docstrings():
     import ast
 
@@ -392,6 +443,25 @@ def run(chk: core.Check) -> int:
             key = r.get("parse", "?")
             outcomes[key] = outcomes.get(key, 0) + 1
     chk.coverage["parse_outcomes"] = outcomes
+    # ---- (5b) doctrans on deeply nested definitions: work proportional to the number of definitions -------------------------
+    deep = [(d, st, ta) for d in ((2, 5, 8, 11) if chk.quick else (2, 4, 6, 8, 10, 12, 14)) for st in ("rest", "google", "numpydoc") for ta in (True, False)]
+    impl = core.guarded_map(impl_doctrans_deep, deep, 60.0)
+    for case, r in zip(deep, impl):
+        chk.count(("doctrans-deep", case), True)
+        if r.get("skipped"):
+            continue
+        if r.get("timeout"):
+            chk.failure({"kind": "timeout", "fn": "doctrans-deep"}, "doctrans x3 on %d nested definitions did not return within 60 s" % case[0], {"fn": "doctrans_deep", "case": list(case)})
+            continue
+        for k, a in enumerate(r["applications"]):
+            if a.get("calls", 0) > 2 * case[0] + 2:
+                chk.failure({"kind": "bound", "loop": "DocTrans._handle_function"}, "application %d: %d function transformations for %d nested definitions" % (k + 1, a["calls"], case[0]),
+                            {"fn": "doctrans_deep", "case": list(case)})
+                break
+            if a.get("size", 0) > 40 * len(deep_module(case[0])) + 4000:
+                chk.failure({"kind": "bound", "loop": "doctrans-output-size"}, "application %d: output of %d bytes for an input of %d bytes" % (k + 1, a["size"], len(deep_module(case[0]))),
+                            {"fn": "doctrans_deep", "case": list(case)})
+                break
     # ---- (6) doctrans applied 1..3 times to generated modules --------------------------------------------------
     mods = [(gen_module(rng), rng.choice(["rest", "google", "numpydoc"]), rng.random() < 0.5) for _ in range(60 if chk.quick else 800)]
     impl = core.guarded_map(impl_doctrans, mods, 30.0)
@@ -421,9 +491,10 @@ def replay(path: str) -> int:
         r = core.guarded_map(impl_emit, [tuple(d["case"])], 10.0, 1)[0]
     elif fn == "find":
         r = core.guarded_map(impl_find, [(d["src"], d["search"])], 10.0, 1)[0]
-    elif fn == "doctrans":
-        r = core.guarded_map(impl_doctrans, [tuple(d["case"])], 30.0, 1)[0]
+    elif fn in ("doctrans", "doctrans_deep"):
+        r = core.guarded_map(impl_doctrans_deep if d.get("fn") == "doctrans_deep" else impl_doctrans, [tuple(d["case"])], 60.0, 1)[0]
     else:
         r = core.guarded_map(impl_parse, [d["doc"]], 15.0, 1)[0]
     print("replay:", fn, r)
-    return 1 if r.get("timeout") else 0
+    bad = r.get("timeout") or any(a.get("calls", 0) > 2 * d["case"][0] + 2 for a in r.get("applications", []) if fn == "doctrans_deep")
+    return 1 if bad else 0
